@@ -265,6 +265,37 @@ async def history_trial(lines, cfg, eav, chunks, probe):
     return out
 
 
+async def restored_into_empty(lines, cfg, own):
+    bad = []
+    try:
+        gwy = await gw.make_gateway(own, cfg)
+    except Exception as err:  # noqa: BLE001
+        return [("replay-raises", type(err).__name__, str(err)[:100])]
+    try:
+        before = gw.engine_obs(gwy)
+        try:
+            await gwy._restore_cached_packets({ln[:26]: ln[27:] for ln in lines})
+        except Exception as err:  # noqa: BLE001
+            bad.append(("restore-raises", type(err).__name__, str(err)[:100]))
+        await gw.settle()
+        if gw.engine_obs(gwy) != before:
+            bad.append(("engine-changed-by-restore", repr(before), repr(gw.engine_obs(gwy))))
+        _, vb = gw.read_views(gwy)
+        for nm, v, cls, msg, where in vb:
+            bad.append((f"view-raises:{v}:{cls}:{where}:gateway-with-no-packets-of-its-own", nm, msg))
+        for inc in (False, True):
+            try:
+                gwy.get_state(include_expired=inc)
+            except Exception as err:  # noqa: BLE001
+                bad.append((f"get_state-raises:{type(err).__name__}:gateway-with-no-packets-of-its-own", f"include_expired={inc}", str(err)[:100]))
+    finally:
+        try:
+            await gwy.stop()
+        except Exception:  # noqa: BLE001, S110
+            pass
+    return bad
+
+
 async def mid_history(lines, cfg, k, what):
     """Replay a log through the file transport; at the k-th message handled, take a snapshot (get) or restore one (restore) from inside the
     running gateway; returns the number of messages handled in all (-1: the replay never finished)."""
@@ -375,6 +406,15 @@ def run(ctx: Ctx) -> None:
                 if n0 is not None and n0 > 0 and n is not None and (n < n0):
                     ctx.violation(f"rest-of-the-log-not-received-after:{what}", f"{what} at message {k} of a log of system {name} being replayed: {n} messages handled, {n0} without it "
                                   "(-1: the replay never finished)", {"system": name, "k": k, "what": what, "handled": n, "handled_without": n0, "lines": lines}, "history")
+    # a saved state restored into a gateway whose OWN log is empty (or holds only a corrupt line): it has a clock of its own only once it has read a
+    # packet itself -- every view and the snapshot answer all the same
+    for name, base, cfg in (syss if thorough else syss[:5]):
+        for own in ([], ["2026-01-01T12:00:00.000000 045  I --- 01:145038 --:------ 01:145038 30C9 003 XX07D0"]):
+            res, _ = gw.run_async(restored_into_empty, base[:80], cfg, own)
+            ctx.case(("restore-into-empty", name, bool(own)), True, "history:restored-into-a-gateway-with-no-packets-of-its-own")
+            for sig, a, b in res:
+                ctx.violation(sig, f"{sig} ({a}; {b}) after restoring {min(80, len(base))} packets of system {name} into a gateway whose own log is " + ("one corrupt line" if own else "empty"),
+                              {"system": name, "own_log": own, "detail": [a, b], "lines": base[:80]}, "history")
     # "still able to send" after traffic of ANOTHER system: a neighbour controller's sync announcement is heard once (its next one never); frames
     # offered for writing afterwards reach the port (the serial transport's own write path, on a virtual clock: see C11's sync_run)
     from . import c11 as _c11  # noqa: PLC0415
